@@ -1,9 +1,60 @@
 import PyamgV.Driver.Util
-/-! Driver ops for property C20 (line protocol). Op names are prefixed `c20_`. -/
+import PyamgV.Model.C20Gallery
+import PyamgV.Model.C20Read
+/-! Driver ops for property C20 (line protocol). Op names are prefixed `c20_`.
+Matrices are printed as `r,c,v|r,c,v|...` (raw triples, duplicates add), `-` = none. -/
 namespace PyamgV.Drv.C20
 open PyamgV PyamgV.Drv
 
+def showTriples (out : List (Nat × Nat × Rat)) : String :=
+  if out.isEmpty then "-" else String.intercalate "|" (out.map fun (r, c, v) => s!"{r},{c},{showRat v}")
+
+def showRatL (l : List Rat) : String := sh (l.map showRat)
+
+def parseSpacing (s : String) : Option (Rat × Rat) :=
+  match listOf s with
+  | [a, b] => some (parseRat a, parseRat b)
+  | _ => none
+
 def handle : List String → Option String
+  | ["c20_stencil", shape, vals, grid] =>
+    some <| match PyamgV.C20.stencilDense ((listOf shape).map nat) ((listOf vals).map parseRat) ((listOf grid).map nat) with
+      | .error e => "err:" ++ e
+      | .ok out => showTriples out
+  | ["c20_stencil_read", shape, vals, grid] =>
+    -- proof-side reading `entry` of the model output, row by row
+    some <| match PyamgV.C20.stencilDense ((listOf shape).map nat) ((listOf vals).map parseRat) ((listOf grid).map nat) with
+      | .error e => "err:" ++ e
+      | .ok out =>
+        let rows := List.range (((listOf grid).map nat).foldl (· * ·) 1)
+        String.intercalate "|" (rows.map fun i => showRatL (rows.map fun j => PyamgV.C20.entry out i j))
+  | ["c20_poisson", grid, ty] =>
+    some <| match PyamgV.C20.poisson ((listOf grid).map nat) (ty = "FE") with
+      | none => "err"
+      | some out => showTriples out
+  | ["c20_poisson_rowsums", grid, ty] =>
+    -- proof-side reading `rowsum` of the model output
+    some <| match PyamgV.C20.poisson ((listOf grid).map nat) (ty = "FE") with
+      | none => "err"
+      | some out => showRatL ((List.range (((listOf grid).map nat).foldl (· * ·) 1)).map fun p => PyamgV.C20.rowsum out p)
+  | ["c20_diff2", ty, eps, c, s] =>
+    some <| showRatL (PyamgV.C20.diffusion2d (ty = "FE") (parseRat eps) (parseRat c) (parseRat s))
+  | ["c20_diff3", epsy, epsz, cphi, sphi, cth, sth, cpsi, spsi] =>
+    some <| showRatL (PyamgV.C20.diffusion3dFD (parseRat epsy) (parseRat epsz) (parseRat cphi) (parseRat sphi)
+      (parseRat cth) (parseRat sth) (parseRat cpsi) (parseRat spsi))
+  | ["c20_q12d", x, y, spacing, e, nu, dir] =>
+    some <| match PyamgV.C20.q12d (nat x) (nat y) (parseSpacing spacing) (parseRat e) (parseRat nu) (dir = "1") with
+      | none => "err"
+      | some r => s!"{r.ndof};{showTriples r.A};" ++ (if r.B.isEmpty then "-" else String.intercalate "|" (r.B.map showRatL))
+  | ["c20_q12d_read", x, y, spacing, e, nu, dir] =>
+    -- proof-side readings of the model output: all entries (`entry`) and `A B` (`rowdot` on `colOf B m`)
+    some <| match PyamgV.C20.q12d (nat x) (nat y) (parseSpacing spacing) (parseRat e) (parseRat nu) (dir = "1") with
+      | none => "err"
+      | some r =>
+        let rows := List.range r.ndof
+        let dense := rows.map fun i => showRatL (rows.map fun j => PyamgV.C20.entry r.A i j)
+        let ab := (List.range 3).map fun m => showRatL (rows.map fun i => PyamgV.C20.rowdot r.A (PyamgV.C20.colOf r.B m) i)
+        String.intercalate "|" dense ++ ";" ++ String.intercalate "|" ab
   | _ => none
 
 end PyamgV.Drv.C20
